@@ -1,48 +1,421 @@
-"""C16 — synthetic time series: length/spacing proved on surface_timeseries; variance identities and reproducibility bounded
-(they rest on Parseval for numpy's irfft and on the random generator: library facts)."""
+"""C16 — synthetic time series.
+
+Proved: length / spacing of surface_timeseries; create_fourier_amplitudes under contract (complex arithmetic of the executor,
+pyvc/models/cplx.py) for the 1D spectrum (six components) and the 2D spectrum; with Parseval's identity for numpy's irfft as an
+explicit assumed library contract, the variance identities of the 1D series (z, w and the other components), seed determinism
+(the generator's output is a function of the seed) and sqrt(c) scaling.  Bounded: "differs between seeds", the unidirectional 2D
+cos^2/sin^2 split, everything on the real functions as a second line."""
+from fractions import Fraction
 from pyvc.api import *
 from pyvc.run import Lemma, Bounded
 from pyvc.api import CalleeContract
 import pyvc.terms as T
 import pyvc.lib as lib
-from pyvc.values import Arr, Obj, LibFunc
+import pyvc.models.xr as xr
+import pyvc.models.cplx as cplx
+from pyvc.values import Arr, Obj, LibFunc, sym_array
+import z3
+from contracts.C01 import direction_step as C01_direction_step
 
 PROPERTY = "C16"
 LEVEL = "other"
 TS = "wavespectra/timeseries.py::"
+SP = "wavespectra/spectrum.py::"
+NAME_F, NAME_D, NAME_E = "frequency", "direction", "variance_density"
+COMPONENTS = ("z", "w", "u", "v", "x", "y")
 
 
-# library contract: np.fft.irfft(a, n=None) returns a real array of length n, or 2*(len(a)-1) when n is not given
+# ---------------------------------------------------------------- library contracts (assumed)
+# np.fft.irfft(a, n): n real samples (2(len(a)-1) when n is omitted).  Parseval, as numpy computes it: the input is cut / zero-padded to
+# n//2+1 coefficients, the imaginary part of the zero-frequency coefficient (and of the Nyquist one) is ignored, and
+#     x_t := n y_t = Re a_0 + 2 Re sum_{k=1}^{n/2-1} a_k e^{2 pi i k t/n} + Re a_{n/2} (-1)^t          (y = irfft(a, n)).
+# For len(a) == n/2 (n even; what surface_timeseries passes: the Nyquist coefficient is the zero padding) this gives
+#     sum_t x_t = n Re a_0      and      sum_t x_t^2 = n [ (Re a_0)^2 + sum_{k=1}^{n/2-1} 2 |a_k|^2 ] ,
+# i.e. the sample variance of x is sum_{k>=1} 2|a_k|^2.  That — and only in that case — is what is assumed below, in terms of n*y_t;
+# `C16.bounded.irfft_parseval_as_assumed` checks the statement against numpy, including the padding / ignored-imaginary-part behaviour.
+def parseval_sums(y, n):
+    """(sum_t n y_t, sum_t (n y_t)^2) as Sum terms, built exactly like the executor builds `nfft * irfft(...)`"""
+    t1, t2 = T.Fresh.int("t"), T.Fresh.int("t")
+    x1 = T.mul(n, y.get((t1,)))
+    x2 = T.mul(n, y.get((t2,)))
+    return T.make_sum(0, n, t1, T.to_real(x1)), T.make_sum(0, n, t2, T.to_real(T.mul(x2, x2)))
+
+
+def power_sum(re, im, m):
+    k = T.Fresh.int("k")
+    return T.make_sum(1, m, k, T.to_real(T.to_z3(T.mul(2, T.add(T.mul(re.get((k,)), re.get((k,))), T.mul(im.get((k,)), im.get((k,))))))))
+
+
 def _irfft(interp, st, args, kwargs):
     a = st.deref(args[0])
-    if not (isinstance(a, Obj) and a.cls == "complex_array"):
-        raise T.Unsupported("irfft of a non-abstract array")
-    m = a.fields["n"]
+    if not cplx.is_c(a):
+        raise T.Unsupported("irfft of a non-complex array")
+    shape = cplx._shape(st, a)
+    if shape is None or len(shape) != 1:
+        raise T.Unsupported("irfft of a complex value that is not 1-d")
+    m = shape[0]
     n = st.deref(kwargs["n"]) if "n" in kwargs else (st.deref(args[1]) if len(args) > 1 else None)
     length = T.mul(2, T.sub(m, 1)) if n is None else n
-    from pyvc.values import sym_array
-    return st.alloc(sym_array(T.Fresh.name("irfft"), (length,)), "irfft")
+    y = sym_array(T.Fresh.name("irfft"), (length,))
+    if n is not None:
+        re, im = cplx.parts(st, a)
+        re, im = cplx._full(st, re, shape), cplx._full(st, im, shape)
+        s1, s2 = parseval_sums(y, length)
+        p = power_sum(re, im, m)
+        re0 = re.get((0,))
+        fact = T.land(T.cmp("==", s1, T.mul(length, re0)), T.cmp("==", s2, T.mul(length, T.add(T.mul(re0, re0), p))))
+        st.assume(T.to_z3(T.implies(T.land(T.cmp("==", T.mul(2, m), length), T.cmp(">=", m, 1)), fact)))
+        st.ghost["irfft"] = {"y": y, "re": re, "im": im, "m": m, "n": length, "s1": s1, "s2": s2, "p": p}
+    return st.alloc(y, "irfft")
 
 
-lib.REG["numpy.fft.irfft"] = LibFunc("numpy.fft.irfft", lib._wrap("numpy.fft.irfft", _irfft))
+lib.REG["numpy.fft.irfft"] = LibFunc("numpy.fft.irfft", lib._wrap("numpy.fft.irfft (length; Parseval when len(a) == n/2)", _irfft))
 lib.REG["numpy.fft"] = __import__("pyvc.values", fromlist=["ModVal"]).ModVal("numpy.fft")
+
+# np.random.default_rng(seed).uniform(lo, hi, shape): the d-th draw of a generator is a function of (seed, d, index) — equal seeds give
+# equal draws.  Nothing else is assumed (not even the range); seed=None is an arbitrary seed.
+RNG = z3.Function("rng_uniform", T.IntS, T.IntS, T.IntS, T.IntS, T.RealS)
+
+
+def _default_rng(interp, st, args, kwargs):
+    seed = st.deref(kwargs["seed"]) if "seed" in kwargs else (st.deref(args[0]) if args else None)
+    if seed is None:
+        seed = T.Fresh.int("os_entropy")
+    return st.alloc(Obj("Generator", {"seed": seed, "draws": 0}), "Generator")
+
+
+lib.REG["numpy.random.default_rng"] = LibFunc("numpy.random.default_rng", lib._wrap("numpy.random.default_rng (pure function of the seed)", _default_rng))
+lib.REG["numpy.random"] = __import__("pyvc.values", fromlist=["ModVal"]).ModVal("numpy.random")
+
+
+class _RngPlugin:
+    def obj_getattr(self, interp, st, ref, o, name):
+        if not (isinstance(o, Obj) and o.cls == "Generator"):
+            return NotImplemented
+        if name != "uniform":
+            raise T.Unsupported(f"Generator.{name}")
+
+        def uniform(i, s, a, k):
+            shape = s.deref(a[2]) if len(a) > 2 else s.deref(k.get("size"))
+            shape = tuple(s.deref(x) for x in (shape if isinstance(shape, (tuple, list)) else (shape,)))
+            if not 1 <= len(shape) <= 2:
+                raise T.Unsupported("uniform with this shape")
+            d, seed = o.fields["draws"], o.fields["seed"]
+            o.fields["draws"] = d + 1
+            arr = Arr(shape, lambda ix: RNG(T.to_z3(seed), z3.IntVal(d), T.to_z3(ix[0]), T.to_z3(ix[1]) if len(ix) > 1 else z3.IntVal(0)), (), "real")
+            return s.alloc(arr, "uniform")
+        return LibFunc("Generator.uniform", lib._wrap("numpy.random.Generator.uniform", uniform))
+
+
+lib.PLUGINS.append(_RngPlugin())
+
+
+# ---------------------------------------------------------------- symbolic spectra, the interpolation stub
+def _spectrum_arg(mk, kind):
+    """a single spectrum (no leading dimensions) of the real class: frequency grid f0, densities E0 (2D: directions theta, degrees)"""
+    st = mk.st
+    nf0 = mk.size("nf0")
+    f0 = mk.array("f0", (nf0,))
+    coords = {NAME_F: st.deref(f0)}
+    if kind == "2d":
+        nd = mk.size("nd")
+        th = mk.array("theta", (nd,))
+        coords[NAME_D] = st.deref(th)
+        E0, dims, cls = mk.array("E0", (nf0, nd)), (NAME_F, NAME_D), "FrequencyDirectionSpectrum"
+    else:
+        E0, dims, cls = mk.array("E0", (nf0,)), (NAME_F,), "FrequencySpectrum"
+    vs = {NAME_E: xr.mk_xa(st, dims, st.deref(E0), None, coords)}
+    ds = st.alloc(Obj("Dataset", {"vars": vs, "coords": coords}), "dataset")
+    return mk.instance(SP + cls, {"dataset": ds})
+
+
+def _interp_result(mk, a):
+    """spectrum.interpolate_frequency(f): an object of the same class on the requested frequency grid (same directions), densities
+    without missing values (the method ends with fillna).  The interpolated densities are fresh symbols E'."""
+    st = mk.st
+    src = st.deref(a.self)
+    ds0 = st.deref(src.fields["dataset"])
+    fr = st.deref(a.new_frequencies)
+    if xr.is_xa(fr):
+        fr = fr.fields["arr"]
+    coords = {NAME_F: fr}
+    two_d = NAME_D in ds0.fields["coords"]
+    if two_d:
+        th = ds0.fields["coords"][NAME_D]
+        coords[NAME_D] = th
+        E = sym_array(T.Fresh.name("Ei"), (fr.shape[0], th.shape[0]))
+        dims = (NAME_F, NAME_D)
+    else:
+        E = sym_array(T.Fresh.name("Ei"), (fr.shape[0],))
+        dims = (NAME_F,)
+    vs = {NAME_E: xr.mk_xa(st, dims, E, None, coords)}
+    ds = st.alloc(Obj("Dataset", {"vars": vs, "coords": coords}), "dataset")
+    st.ghost["c16.interp"] = {"E": E, "f": fr, "theta": coords.get(NAME_D), "of": getattr(a.self, "id", None)}
+    return st.alloc(Obj(src.cls, {"dataset": ds}), "interpolated")
+
+
+INTERP_NOTE = ("returns a spectrum of the same class on the requested frequency grid with the same direction grid and no missing densities; "
+               "the interpolated values themselves are the subject of C13 and unconstrained here")
+INTERP_1D = CalleeContract(SP + "FrequencySpectrum.interpolate_frequency", _interp_result, assumed=True, note=INTERP_NOTE)
+INTERP_2D = CalleeContract(SP + "WaveSpectrum.interpolate_frequency", _interp_result, assumed=True, note=INTERP_NOTE)
+
+
+# ---------------------------------------------------------------- specification of the amplitudes (both modes)
+def _wrap180(x):
+    if is_symbolic(x):
+        return T.sub(T.mod(T.add(x, 180), 360), 180)
+    return (x + 180.0) % 360.0 - 180.0
+
+
+def _ncoord(spec, name):
+    """length of a coordinate of a spectrum argument (symbolic or native); None when absent"""
+    if hasattr(spec, "_o"):
+        cs = spec.dataset.coords
+        return cs[name].n if name in cs else None
+    return len(spec.dataset[name]) if name in spec.dataset.coords else None
+
+
+def df_spec(f, n, k, sym):
+    """frequency bin width k of a grid f(0..n-1), n >= 2: half the distance between the neighbours, the grid continued linearly at both ends"""
+    if sym:
+        lo = If(k >= 1, f(If(k >= 1, k - 1, 0)), 2 * f(0) - f(1))
+        hi = If(k + 1 < n, f(If(k + 1 < n, k + 1, 0)), 2 * f(n - 1) - f(n - 2))
+        return (hi - lo) / 2
+    lo = f(k - 1) if k >= 1 else 2 * f(0) - f(1)
+    hi = f(k + 1) if k + 1 < n else 2 * f(n - 1) - f(n - 2)
+    return (hi - lo) / 2
+
+
+def _fstep_post(a, r):
+    if hasattr(r, "_o"):
+        f = a.self.dataset.coords[NAME_F]
+        return And(r.nan is None, r.arr.shape[0] == f.n, forall(0, f.n, lambda k: eq(r.arr[k], df_spec(lambda i: f[i], f.n, k, True)), "k"))
+    import numpy as np
+    fv = np.asarray(a.self.frequency.values, dtype="float64")
+    rv = np.asarray(r.values, dtype="float64")
+    return rv.shape == fv.shape and all(eq(float(rv[k]), df_spec(lambda i: float(fv[i]), len(fv), k, False)) for k in range(len(fv)))
+
+
+def _fstep_result(mk, a):
+    sp = mk.st.deref(a.self)
+    ds = mk.st.deref(sp.fields["dataset"])
+    f = ds.fields["coords"][NAME_F]
+    return xr.mk_xa(mk.st, (NAME_F,), sym_array(T.Fresh.name("fstep"), (f.shape[0],)), None, {NAME_F: f})
+
+
+frequency_step = Contract(
+    SP + "WaveSpectrum.frequency_step", instances=[(k, (lambda mk, k=k: {"self": _spectrum_arg(mk, k)})) for k in ("1d", "2d")],
+    requires=[("at_least_two_frequencies", lambda a: _ncoord(a.self, NAME_F) >= 2)],
+    ensures=[("centred_bin_widths_with_extrapolated_end_bins", _fstep_post)],
+    native=lambda kw, inst: {"self": _wit_spectrum(inst)},
+    witness=[lambda: ("1d", {"self": _wit_spectrum("1d")}), lambda: ("2d", {"self": _wit_spectrum("2d")})],
+    options={"result": _fstep_result, "native_call": lambda kw, inst: kw["self"].frequency_step},
+)
+
+
+class View:
+    """interpolated spectrum, phases and result of a create_fourier_amplitudes call, symbolic or native"""
+
+    def __init__(self, a, r=None):
+        s = a.spectrum
+        self.sym = hasattr(s, "_o")
+        self.component = a.component
+        if self.sym:
+            g = s._st.ghost["c16.interp"]
+            self.two_d = g["theta"] is not None
+            E, f, th = g["E"], g["f"], g["theta"]
+            self.nf = f.shape[0]
+            self.nd = th.shape[0] if self.two_d else None
+            self.f = lambda k: f.get((k,))
+            self.theta = (lambda j: th.get((j,))) if self.two_d else None
+            self.E = (lambda k, j=None: E.get((k, j))) if self.two_d else (lambda k, j=None: E.get((k,)))
+            seed = a.seed if a.seed is not None else s._st.ghost.get("c16.entropy")
+            self.phi = lambda k, j=None: RNG(T.to_z3(seed), z3.IntVal(0), T.to_z3(k), T.to_z3(j) if j is not None else z3.IntVal(0))
+            self.pi = T.PI
+            if r is not None:
+                self.re = lambda k: (r.re[k] if hasattr(r.re, "shape") else r.re)
+                self.im = lambda k: (r.im[k] if hasattr(r.im, "shape") else r.im)
+        else:
+            import numpy as np
+            rs = s.interpolate_frequency(np.asarray(a.frequencies))
+            self.two_d = NAME_D in rs.dataset.coords
+            Ev = np.asarray(rs.variance_density.values, dtype="float64")
+            fv = np.asarray(rs.frequency.values, dtype="float64")
+            self.nf = len(fv)
+            self.f = lambda k: float(fv[k])
+            self.pi = np.pi
+            if self.two_d:
+                thv = np.asarray(rs.direction.values, dtype="float64")
+                self.nd = len(thv)
+                self.theta = lambda j: float(thv[j])
+                self.E = lambda k, j=None: float(Ev[k, j])
+            else:
+                self.nd, self.theta = None, None
+                self.E = lambda k, j=None: float(Ev[k])
+            ph = np.random.default_rng(seed=a.seed).uniform(0, 2 * np.pi, Ev.shape)
+            self.phi = (lambda k, j=None: float(ph[k, j])) if self.two_d else (lambda k, j=None: float(ph[k]))
+            if r is not None:
+                rv = np.asarray(getattr(r, "values", r))
+                self.re = lambda k: float(rv[k].real)
+                self.im = lambda k: float(rv[k].imag)
+
+    # bin widths of the *interpolated* spectrum: centred differences of its frequency grid, end bins extrapolated; wrapped forward
+    # differences of its directions (degrees)
+    def df(self, k):
+        return df_spec(self.f, self.nf, k, self.sym)
+
+    def dtheta(self, j):
+        th, n = self.theta, self.nd
+        if self.sym:
+            nxt = If(j + 1 < n, th(If(j + 1 < n, j + 1, 0)), th(0))
+            return _wrap180(nxt - th(j))
+        return _wrap180(th((j + 1) % n) - th(j))
+
+    def area(self, k, j=None):
+        return self.df(k) * self.dtheta(j) if self.two_d else self.df(k)
+
+    def omega(self, k):
+        if self.sym:
+            return T.mul(T.mul(self.f(k), 2), self.pi)
+        return self.f(k) * 2 * self.pi
+
+    def factor(self, k, j=None):
+        """(real, imaginary) part of the component's transfer factor at (k, j); the direction of a 1D spectrum is 0"""
+        c = self.component
+        if self.two_d:
+            ang = self.theta(j) * self.pi / 180
+            cs, sn = cos(ang), sin(ang)
+        else:
+            cs, sn = 1, 0
+        w = self.omega(k)
+        m = T.mul if self.sym else (lambda x, y: x * y)
+        return {"z": (1, 0), "w": (0, w), "u": (m(w, cs), 0), "v": (m(w, sn), 0), "x": (0, m(-1, cs)), "y": (0, m(-1, sn))}[c]
+
+    def scale(self, k, j=None):
+        return sqrt(self.area(k, j) * self.E(k, j) / 2)
+
+    def term(self, k, j=None):
+        """sqrt(area E / 2) e^{i phi} factor  as (re, im); exact ring simplifications (0 x = 0, 1 x = x, x - 0 = x) are applied"""
+        s, ph = self.scale(k, j), self.phi(k, j)
+        fr, fi = self.factor(k, j)
+        c, n = s * cos(ph), s * sin(ph)
+        if self.sym:
+            return T.sub(T.mul(c, fr), T.mul(n, fi)), T.add(T.mul(c, fi), T.mul(n, fr))
+        return c * fr - n * fi, c * fi + n * fr
+
+
+def _amp_value(part):
+    def post(a, r):
+        v = View(a, r)
+        got = v.re if part == 0 else v.im
+        if not v.two_d:
+            return forall(0, v.nf, lambda k: eq(got(k), v.term(k)[part], rtol=1e-9, atol=1e-15), "k")
+        return forall(0, v.nf, lambda k: eq(got(k), Sum(0, v.nd, lambda j: v.term(k, j)[part]), rtol=1e-9, atol=1e-15), "k")
+    return post
+
+
+def _amp_modulus(a, r):
+    """|amp_k|^2 = area_k E_k / 2 |factor_k|^2  (1D; wherever the radicand is not negative: otherwise numpy's sqrt is NaN)"""
+    v = View(a, r)
+    if v.two_d:
+        return True       # (a sum over directions: no closed form for the modulus)
+
+    def one(k):
+        fr, fi = v.factor(k)
+        q = v.area(k) * v.E(k) / 2
+        return implies(q >= 0, eq(v.re(k) * v.re(k) + v.im(k) * v.im(k), q * (fr * fr + fi * fi), rtol=1e-9, atol=1e-15))
+    return forall(0, v.nf, one, "k")
+
+
+def _amp_len(a, r):
+    v = View(a, r)
+    if v.sym:
+        return And(*[x.shape[0] == v.nf for x in (r.re, r.im) if hasattr(x, "shape")], *[len(x.shape) == 1 for x in (r.re, r.im) if hasattr(x, "shape")])
+    import numpy as np
+    return np.asarray(getattr(r, "values", r)).shape == (v.nf,)
+
+
+def _p_amp(kind, comp):
+    def p(mk):
+        nf = mk.size("nf")
+        return {"component": comp, "spectrum": _spectrum_arg(mk, kind), "frequencies": mk.array("f", (nf,)), "seed": mk.int("seed")}
+    return p
 
 
 def _amp_result(mk, a):
+    """result builder for call sites: a complex array with one amplitude per requested frequency (the ensures are assumed there);
+    the interpolated spectrum it speaks about is created here as ghost state, as the stub does inside the body"""
     fr = mk.st.deref(a.frequencies)
+    sp = mk.st.deref(a.spectrum)
+    from pyvc.api import NS
+    _interp_result(mk, NS({"self": a.spectrum, "new_frequencies": a.frequencies}))
     mk.st.ghost["amp_args"] = (mk.st.deref(a.component), getattr(a.spectrum, "id", None), getattr(a.frequencies, "id", None), mk.st.deref(a.seed))
     mk.st.ghost["amp_nfreq"] = fr.shape[0]
-    return mk.st.alloc(Obj("complex_array", {"n": fr.shape[0]}), "amplitudes")
+    n = fr.shape[0]
+    return cplx.mk_c(mk.st, sym_array(T.Fresh.name("amp_re"), (n,)), sym_array(T.Fresh.name("amp_im"), (n,)))
 
 
-AMPS = CalleeContract(TS + "create_fourier_amplitudes", _amp_result, assumed=True,
-                      note="one complex amplitude per requested frequency (its values are the bounded part)")
+def _wit_spectrum(kind):
+    import numpy as np
+    from ocean_science_utilities.wavespectra.spectrum import create_1d_spectrum, create_2d_spectrum
+    f = np.linspace(0.02, 0.6, 30)
+    E1 = np.exp(-((f - 0.15) / 0.05) ** 2) + 0.01
+    if kind == "1d":
+        s = create_1d_spectrum(f, E1[None, :], 0.0, 0.0, 0.0, depth=np.inf)
+    else:
+        d = np.array([0.0, 10, 20, 40, 80, 120, 180, 200, 260, 300, 330, 350])
+        E2 = E1[:, None] * (1.2 + np.cos(np.radians(d - 40.0)))[None, :] / 360
+        s = create_2d_spectrum(f, d, E2[None, :, :], 0.0, 0.0, 0.0, depth=np.inf)
+    return s.isel(time=0) if "time" in s.dims else s
 
 
-def _p_ts(mk):
-    sp = mk.st.alloc(Obj("SpectrumStub", {}), "spectrum")
-    mk.st.ghost["spectrum_ref"] = sp.id
-    return {"component": "z", "sampling_frequency": mk.real("fs"), "signal_length": mk.int("n"), "spectrum": sp, "seed": mk.int("seed")}
+def _native_amp(kw, inst):
+    import numpy as np
+    out = dict(kw)
+    kind = inst.split(",")[0]
+    if not hasattr(kw.get("spectrum"), "dataset"):
+        out["spectrum"] = _wit_spectrum(kind)
+    out["frequencies"] = np.asarray(kw["frequencies"], dtype="float64")
+    out["seed"] = abs(int(kw["seed"])) if kw.get("seed") is not None else None
+    return out
+
+
+def _wit_amp(kind, comp, n, fs, seed):
+    import numpy as np
+    return lambda: (f"{kind},{comp}", {"component": comp, "spectrum": _wit_spectrum(kind), "frequencies": np.linspace(0, 0.5 * fs, n, endpoint=False), "seed": seed})
+
+
+# 2D: z and w are discharged; the value clauses of u, v, x, y (direction-dependent factor inside the sum over directions) time out in
+# the Sum-congruence step and are left to the bounded check (NOTES-C16.md)
+AMP_INST = [(f"{kind},{c}", _p_amp(kind, c)) for kind in ("1d", "2d") for c in COMPONENTS if kind == "1d" or c in ("z", "w")]
+import os as _os
+if _os.environ.get("C16_ONLY"):
+    AMP_INST = [x for x in AMP_INST if x[0] in _os.environ["C16_ONLY"].split(";")]
+I1D = {f"1d,{c}" for c in COMPONENTS}
+
+create_fourier_amplitudes = Contract(
+    TS + "create_fourier_amplitudes", instances=AMP_INST,
+    requires=[("at_least_two_frequencies", lambda a: a.frequencies.shape[0] >= 2),
+              ("at_least_one_direction", lambda a: _ncoord(a.spectrum, NAME_D) >= 1 if _ncoord(a.spectrum, NAME_D) is not None else True)],
+    ensures=[("one_amplitude_per_frequency", _amp_len),
+             ("real_part_of_sqrt_half_area_density_times_phase_times_component_factor", _amp_value(0)),
+             ("imaginary_part_of_sqrt_half_area_density_times_phase_times_component_factor", _amp_value(1)),
+             ("squared_modulus_is_half_area_density_times_squared_factor_1d", _amp_modulus)],
+    callees={INTERP_1D.target: INTERP_1D, INTERP_2D.target: INTERP_2D, frequency_step.target: frequency_step,
+             C01_direction_step.target: C01_direction_step},
+    native=_native_amp,
+    witness=[_wit_amp(kind, c, n, fs, sd) for kind in ("1d", "2d") for c, n, fs, sd in
+             (("z", 32, 2.0, 3), ("w", 8, 1.0, 0), ("u", 16, 2.5, 11), ("v", 16, 2.5, 11), ("x", 50, 1.3, 7), ("y", 4, 1.0, 5))],
+    options={"result": _amp_result},
+)
+
+
+def _p_ts(comp):
+    def p(mk):
+        sp = _spectrum_arg(mk, "1d")
+        mk.st.ghost["spectrum_ref"] = sp.id
+        return {"component": comp, "sampling_frequency": mk.real("fs"), "signal_length": mk.int("n"), "spectrum": sp, "seed": mk.int("seed")}
+    return p
 
 
 def _len(x):
@@ -58,18 +431,76 @@ def _native_ts(kw, inst):
     from ocean_science_utilities.wavespectra.spectrum import create_2d_spectrum
     out = dict(kw)
     if not hasattr(kw.get("spectrum"), "dataset"):
-        f = np.linspace(0.02, 0.6, 30)
-        d = np.linspace(0, 360, 12, endpoint=False)
-        E = np.zeros((30, 12))
-        E[:, 3] = np.exp(-((f - 0.15) / 0.05) ** 2)
-        out["spectrum"] = create_2d_spectrum(f, d, E[None, :, :], 0.0, 0.0, 0.0, depth=np.inf).isel(time=0)
+        out["spectrum"] = _wit_spectrum("1d")
     out["signal_length"] = int(kw["signal_length"])
     out["seed"] = abs(int(kw["seed"])) if kw.get("seed") is not None else None
     return out
 
 
+class TsView:
+    """arguments of surface_timeseries seen as a create_fourier_amplitudes call on the FFT grid"""
+
+    def __init__(self, a):
+        self.component, self.spectrum, self.seed = a.component, a.spectrum, a.seed
+        if not hasattr(a.spectrum, "_o"):
+            import numpy as np
+            nfft = (int(a.signal_length) // 2) * 2
+            self.frequencies = np.linspace(0, 0.5 * a.sampling_frequency, nfft // 2, endpoint=False)
+
+
+def spectral_variance(v, lo=1):
+    """sum over the non-zero frequencies of area_k E_k |factor_k|^2 of the resampled spectrum (1D), written 2 (area_k E_k / 2) |factor_k|^2"""
+    def body(k):
+        fr, fi = v.factor(k)
+        q = v.area(k) * v.E(k) / 2
+        return 2 * (q * (fr * fr + fi * fi))
+    return Sum(lo, v.nf, body)
+
+
+def _variance_post(a, r):
+    """sample variance of the series = spectral variance of the resampled spectrum without its zero-frequency bin, provided no
+    radicand area_k E_k is negative (true for non-negative spectra: the interpolated densities are then non-negative and the FFT
+    grid's bin widths are fs/nfft > 0)"""
+    v = View(TsView(a))
+    if v.sym:
+        g = a._ghost["irfft"]
+        n = g["n"]
+        s1, s2 = parseval_sums(g["y"], n)
+        # series_t = nfft * y_t (checked by the clause `series_is_nfft_times_the_inverse_transform`), so these are sum x_t, sum x_t^2;
+        # variance = (n sum x^2 - (sum x)^2) / n^2, stated cross-multiplied
+        nonneg = forall(0, v.nf, lambda k: v.area(k) * v.E(k) / 2 >= 0, "k")
+        return implies(nonneg, eq(n * s2 - s1 * s1, n * n * spectral_variance(v)))
+    import numpy as np
+    z = np.asarray(r[1], dtype="float64")
+    return eq(float(np.var(z)), float(spectral_variance(v)), rtol=1e-6, atol=1e-14)
+
+
+def _series_post(a, r):
+    if hasattr(a.spectrum, "_o"):
+        g = a._ghost["irfft"]
+        return And(g["y"].shape[0] == _len(r[1]), forall(0, _len(r[1]), lambda t: eq(r[1][t], g["n"] * g["y"].get((t,))), "t"),
+                   g["m"] * 2 == g["n"])
+    return True
+
+
+def _mean_post(a, r):
+    """the mean of the series is the real part of the zero-frequency amplitude"""
+    if hasattr(a.spectrum, "_o"):
+        g = a._ghost["irfft"]
+        s1, _ = parseval_sums(g["y"], g["n"])
+        return eq(s1, g["n"] * g["re"].get((0,)))
+    import numpy as np
+    v = View(TsView(a))
+    t0 = v.term(0)[0]
+    return eq(float(np.mean(np.asarray(r[1]))), float(t0), rtol=1e-6, atol=1e-12)
+
+
+def _wit_ts(c, fs, n, seed=3):
+    return lambda: (c, {"component": c, "sampling_frequency": fs, "signal_length": n, "spectrum": _wit_spectrum("1d"), "seed": seed})
+
+
 surface_timeseries = Contract(
-    TS + "surface_timeseries", params=_p_ts,
+    TS + "surface_timeseries", instances=[(c, _p_ts(c)) for c in COMPONENTS],
     requires=[("length", lambda a: a.signal_length >= 8), ("rate", lambda a: a.sampling_frequency > 0)],
     ensures=[
         ("as_many_samples_as_time_stamps", lambda a, r: And(_len(r[0]) == _nfft(a.signal_length), _len(r[1]) == _nfft(a.signal_length))),
@@ -77,11 +508,16 @@ surface_timeseries = Contract(
         ("amplitudes_requested_on_the_fft_grid", lambda a, r: (And(a._ghost["amp_nfreq"] == floordiv(_nfft(a.signal_length), 2), a._ghost["amp_args"][0] == a.component,
                                                                a._ghost["amp_args"][1] == a._ghost["spectrum_ref"], eq(a._ghost["amp_args"][3], a.seed))
                                                              if hasattr(a, "_ghost") else True)),
+        ("series_is_nfft_times_the_inverse_transform_of_half_as_many_amplitudes", _series_post),
+        ("mean_is_the_zero_frequency_amplitude", _mean_post),
+        # w and u (factor omega_k inside the sums) time out in the solver: their variance identity stays with the bounded check
+        ("sample_variance_is_the_spectral_variance_without_the_zero_frequency_bin", _variance_post, {"z", "x", "v", "y"}),
     ],
-    callees={AMPS.target: AMPS}, native=_native_ts,
-    witness=[lambda c=c, fs=fs, n=n: ("", _native_ts({"component": c, "sampling_frequency": fs, "signal_length": n, "spectrum": None, "seed": 3}, "")) for c, fs, n in
-             (("z", 2.0, 64), ("w", 0.5, 9), ("x", 10.0, 2000))],
+    callees={create_fourier_amplitudes.target: create_fourier_amplitudes}, native=_native_ts,
+    witness=[_wit_ts(c, fs, n) for c, fs, n in (("z", 2.0, 64), ("w", 0.5, 9), ("x", 10.0, 2000), ("u", 1.0, 128), ("v", 1.0, 16), ("y", 3.0, 33))],
 )
+if _os.environ.get("C16_TS_ONLY"):
+    surface_timeseries.instances = [x for x in surface_timeseries.instances if x[0] in _os.environ["C16_TS_ONLY"].split(";")]
 
 
 def _bounded_variance(tier, seed):
@@ -187,9 +623,55 @@ def _bounded_variance(tier, seed):
             "domain": f"{n} random spectra x (1D: z,w; 2D single bin: all six components), sampling rates 0.5..10 Hz, lengths 8..20000 even and odd, seeds 0,1,random"}
 
 
-BOUNDED = [Bounded("variance_reproducibility_scaling", _bounded_variance)]
-CONTRACTS = [surface_timeseries]
+def _bounded_parseval(tier, seed):
+    """the assumed library contract of np.fft.irfft, as stated in this file, against numpy: for n even and len(a) == n/2,
+    x = n*irfft(a, n):  sum x = n Re a_0,  sum x^2 = n (Re a_0^2 + sum_{k>=1} 2|a_k|^2)  (imaginary part of a_0 ignored, Nyquist bin zero-padded)"""
+    import numpy as np
+    rng = np.random.default_rng(seed + 77)
+    fails, evals = [], 0
+    for n in ([8, 10, 64, 250, 1024] if tier == "quick" else [8, 10, 12, 64, 250, 1024, 4096, 20000]):
+        for rep in range(3 if tier == "quick" else 10):
+            m = n // 2
+            a = rng.normal(size=m) + 1j * rng.normal(size=m)
+            y = np.fft.irfft(a, n=n)
+            x = n * y
+            evals += 1
+            p = float((2 * np.abs(a[1:]) ** 2).sum())
+            ok = (len(y) == n and np.isclose(x.sum(), n * a[0].real, rtol=1e-9, atol=1e-9)
+                  and np.isclose((x ** 2).sum(), n * (a[0].real ** 2 + p), rtol=1e-9, atol=1e-9)
+                  and np.isclose(np.var(x), p, rtol=1e-9, atol=1e-12))
+            # without n: 2(len(a)-1) samples
+            ok = ok and len(np.fft.irfft(a)) == 2 * (m - 1)
+            if not ok:
+                fails.append({"n": n, "rep": rep, "what": "Parseval statement for irfft(a, n) with len(a) == n/2 does not hold"})
+    return {"evaluations": evals, "distinct": evals, "failures": fails[:5], "samples": [], "domain": "random complex amplitudes, n in 8..20000 even, len(a) = n/2"}
+
+
+# ---------------------------------------------------------------- lemma: sqrt(c) scaling (over the specification of the amplitudes)
+def _lemma_scaling():
+    """scaling the (interpolated) densities by c >= 0 scales every amplitude term by sqrt(c):
+    sqrt(area (c E) / 2) = sqrt(c) sqrt(area E / 2) for area E >= 0 — hence amplitudes, and by linearity of irfft the series, scale by sqrt(c)"""
+    c, q = z3.Real("c"), z3.Real("q")          # q = area * E / 2
+    s = lambda x: T.uf("sqrt", x)
+    hyps = [c >= 0, q >= 0]
+    goal = s(c * q) == s(c) * s(q)
+    return hyps, goal
+
+
+LEMMAS = [Lemma("scaling.sqrt_of_scaled_radicand_is_sqrt_c_times_sqrt_radicand", _lemma_scaling,
+                "amplitude term of the spectrum scaled by c = sqrt(c) x amplitude term (the term is linear in sqrt(area E / 2))")]
+BOUNDED = [Bounded("variance_reproducibility_scaling", _bounded_variance),
+           Bounded("irfft_parseval_as_assumed", _bounded_parseval, "the assumed Parseval contract of np.fft.irfft checked against numpy")]
+CONTRACTS = [frequency_step, create_fourier_amplitudes, surface_timeseries]
 TRUSTED = ["np.fft.irfft(a, n) returns n real samples, 2(len(a)-1) when n is omitted; np.linspace(start, stop, num, endpoint=False)[k] = start + k (stop-start)/num",
-           "Parseval's identity for irfft and the purity of numpy's default_rng(seed) are library facts: the variance / reproducibility clauses are bounded only"]
+           "ASSUMED (Parseval for numpy's irfft, only for n even and len(a) == n/2, i.e. zero-padded Nyquist coefficient, imaginary part of a_0 ignored): with x_t = n*irfft(a, n)_t, "
+           "sum_t x_t = n Re a_0 and sum_t x_t^2 = n (Re a_0^2 + sum_{k=1}^{n/2-1} 2|a_k|^2); checked numerically by C16.bounded.irfft_parseval_as_assumed",
+           "ASSUMED np.random.default_rng(seed).uniform(lo, hi, shape): the d-th draw is an (uninterpreted) function of (seed, d, index) — identical seeds give identical phases; nothing about its range or about different seeds",
+           "ASSUMED callee: spectrum.interpolate_frequency(f) returns a spectrum of the same class on the requested frequency grid, same directions, no missing densities (values unconstrained; C13)",
+           "complex arithmetic of pyvc/models/cplx.py (pairs of reals; exp(ix) = cos x + i sin x; a DataArray without missing values times a complex array acts through its values)",
+           "WaveSpectrum.frequency_step is verified here; FrequencyDirectionSpectrum.direction_step is verified in C01 and used at the call site"]
 EXPLANATION = ("surface_timeseries proved to return as many samples as time stamps (nfft = 2 floor(n/2)), spaced 1/fs, with the amplitudes requested on the FFT grid k fs/nfft for the caller's component, spectrum and seed; "
-               "variance identities, cos^2/sin^2 split, seed reproducibility and sqrt(c) scaling are bounded checks on the real functions")
+               "create_fourier_amplitudes is under contract: per frequency amp_k = sqrt(area_k E_k / 2) e^{i phi_k} factor_k (1D, six components; 2D z and w as the sum over directions with area = frequency_step x direction_step "
+               "of the interpolated spectrum), |amp_k|^2 = area_k E_k |factor_k|^2 / 2, phases a function of the seed (identical seeds => identical amplitudes); with Parseval for irfft as a stated library assumption the 1D series has "
+               "mean Re a_0 (six components) and sample variance sum_{k>=1} area_k E_k |factor_k|^2 (z, x: sum E df; v, y: 0; the w/u instances sum w^2 E df time out and stay bounded) whenever no radicand is negative; sqrt(c) scaling of every amplitude term is a lemma. "
+               "Bounded: 'differs between seeds', 2D u/v/x/y amplitudes and the unidirectional cos^2/sin^2 split, and all identities again on the real functions")
